@@ -74,7 +74,7 @@ CHECKS = {
                      "witnesses are replayed on the real converter and reader. Bounded model checking.",
                 design='DESIGN.md 7/C05 and 18',
                 note=NOTE_COMMON + " The binary64 obligations are claimed only inside the boxes listed in the evidence bounds (quick: all intervals 1..32767 us - what segyio can read from the 2-byte field - x start "
-                     "-2..2 ms x 3 samples, plus boxes with 2/7/100 samples, 2 intervals x all 65536 start times, one 2D file); other (interval, start, "
+                     "-2..2 ms x 3 samples, plus boxes with 2/7/100 samples, 2 intervals x all 65536 start times, one 2D file; NumPy route three boxes up to 65535 us); other (interval, start, "
                      "length) triples, non-whole-millisecond start times and the ZGY route are outside."),
     'C09': dict(text="2D route end to end on a symbolic 2D SEG-Y source: producer with edge replication, per-group / per-block compression, 2D header, "
                      "then the real 2D loaders: the sample read back at a symbolic (trace, sample) is the 2D ZFP cell of the edge-clamped source "
